@@ -60,6 +60,7 @@ def tree_hash():
             h.update(fh.read())
     h.update(BASE_FLAGS.encode())
     h.update(json.dumps(CONFIGS, sort_keys=True).encode())
+    h.update(REL_FLAGS.encode())
     _tree_hash = h.hexdigest()[:24]
     return _tree_hash
 
@@ -70,8 +71,22 @@ def cache_dir():
     return d
 
 
+REL_FLAGS = "-C debug-assertions=off -C overflow-checks=off"
+
+
+def split_cfg(cfg):
+    """'x64-std@rel' -> ('x64-std', True): the same configuration compiled with release semantics
+    (no debug assertions, wrapping arithmetic) -- what users run; the plain name is the debug build"""
+    if cfg.endswith('@rel'):
+        return cfg[:-4], True
+    return cfg, False
+
+
 def run_driver(cfg, out_path, crate_manifest=None, crate_name='memchr'):
-    target, feats, extra, _ = CONFIGS[cfg]
+    base, rel = split_cfg(cfg)
+    target, feats, extra, _ = CONFIGS[base]
+    if rel:
+        extra = (extra + ' ' + REL_FLAGS).strip()
     if not os.path.exists(DRIVER):
         raise RuntimeError("driver not built: run ./setup.sh")
     tmp = tempfile.mkdtemp(prefix='mcsa-', dir=os.environ.get('TMPDIR', '/var/tmp'))
